@@ -10,6 +10,8 @@ def run(tier, seed):
         casefold.add_obligations(rep, "C16", tier)
     except ImportError:
         pass
+    from ..propbase import deductive
+    deductive(rep, "C16", ["markdown_it.helpers.parse_link_title.parseLinkTitle"], "contracts.helpers")
     cfgs = ["commonmark", "js-default"]
     gen_universe(rep, "vf.oracles2:c16_refs", "vf.oracles2:gen_c16_refs", tier, "rules_block.reference / MarkdownIt.render", "render(D, env seeded by R) == render(R + blank + D); same records (first wins, duplicates)",
                  cfgs, "definition documents x using documents (incl. duplicates, multi-line titles, container-nested definitions); distinct = distinct (refs, dups, output prefix)", "R x D")
